@@ -5,6 +5,7 @@ import (
 	"encoding/binary"
 	"errors"
 	"fmt"
+	"reflect"
 	"sort"
 	"time"
 
@@ -272,6 +273,64 @@ func runSession(r *core.Run) {
 		rstream = append(rstream, b...)
 		rends = append(rends, len(rstream))
 		r.Event("server answers %s cmd=%#x seq=%v after %v", want, cmd, hseq, p.at)
+		// a second response generator some types offer must agree with GenEmptyResponse
+		if gm := reflect.ValueOf(p.req).MethodByName("GenerateResponseHeader"); gm.IsValid() && gm.Type().NumIn() == 0 && gm.Type().NumOut() == 1 {
+			var alt protocol.PDU
+			r.Call(site+".GenerateResponseHeader", func() {
+				if v, ok := gm.Call(nil)[0].Interface().(protocol.PDU); ok && !gm.Call(nil)[0].IsNil() {
+					alt = v
+				}
+			})
+			if alt == nil || typeSite(alt) != want {
+				r.Fail("C10", "resp-type", site, "GenerateResponseHeader", "GenerateResponseHeader returned %v, the protocol's response is %s", alt, want)
+			} else {
+				if alt.GetSequenceID() != p.req.GetSequenceID() {
+					r.Fail("C10", "resp-seq", site, "GenerateResponseHeader", "response sequence %d, request %d", alt.GetSequenceID(), p.req.GetSequenceID())
+				}
+				var ab []byte
+				var aerr error
+				if pp := r.Call(want+".IEncode", func() { ab, aerr = alt.IEncode() }); pp == nil && aerr == nil {
+					if _, acmd, ahs, aok := headerBits(proto, ab); aok && (acmd != cmd || ahs != hseq) {
+						r.Fail("C10", "resp-command", site, "GenerateResponseHeader", "encoded header carries command %#x seq %v, GenEmptyResponse gave %#x %v", acmd, ahs, cmd, hseq)
+					}
+				}
+			}
+		}
+		if c.Prob(1, 3) {
+			checkSetSeq(r, proto, p.req, "decoded")
+		}
+		// a generated response is a PDU obtained from the library too: setting its sequence number is visible
+		// through the getter and at the header's sequence offset (on a copy; the one sent stays as it is)
+		if c.Prob(1, 2) {
+			var cp protocol.PDU
+			r.Call(site+".GenEmptyResponse", func() { cp = p.req.GenEmptyResponse() })
+			if cp != nil {
+				ns := uint32(c.Uint64())
+				if c.Prob(1, 3) {
+					ns = edges[c.Intn(len(edges))]
+				}
+				r.Call(want+".SetSequenceID", func() { cp.SetSequenceID(ns) })
+				if cp.GetSequenceID() != ns {
+					r.Fail("C10", "set-seq", want, "getter", "SetSequenceID(%d) on a generated response, then GetSequenceID()=%d", ns, cp.GetSequenceID())
+				}
+				var b2 []byte
+				var err2 error
+				if pp := r.Call(want+".IEncode", func() { b2, err2 = cp.IEncode() }); pp == nil && err2 == nil {
+					if _, cmd2, hs2, ok2 := headerBits(proto, b2); ok2 {
+						w := 0
+						if proto.Header == "sgip20" {
+							w = 2
+						}
+						if hs2[w] != ns {
+							r.Fail("C10", "set-seq", want, "header-offset", "sequence number %d set on a generated response is not at the header's sequence offset (found %d)", ns, hs2[w])
+						}
+						if cmd2 != cmd {
+							r.Fail("C10", "resp-command", want, "after-set-seq", "command id changed from %#x to %#x after SetSequenceID", cmd, cmd2)
+						}
+					}
+				}
+			}
+		}
 	}
 	// ---- client: frame, dispatch, pair by sequence id
 	if len(rends) == 0 {
@@ -318,6 +377,9 @@ func runSession(r *core.Run) {
 		if got := resp.GetCommand().ToUint32(); got != cmd {
 			r.Fail("C10", "command", typeSite(resp), "decoded", "decoded from command id %#x, GetCommand() reports %#x", cmd, got)
 		}
+		if c.Prob(1, 2) {
+			checkSetSeq(r, proto, resp, "decoded")
+		}
 	}
 	for _, o := range window {
 		if o.answers != 1 {
@@ -334,6 +396,48 @@ func runSession(r *core.Run) {
 		}
 	}
 	_ = bytes.Equal
+}
+
+// checkSetSeq: on a PDU obtained from the library, setting a sequence number is visible through the getter and
+// at the header's sequence offset, and leaves the command id alone.
+func checkSetSeq(r *core.Run, proto *spec.Proto, pdu protocol.PDU, how string) {
+	c := r.C
+	site := typeSite(pdu)
+	ns := uint32(c.Uint64())
+	if c.Prob(1, 3) {
+		ns = []uint32{0, 1, 0x7fffffff, 0x80000000, 0xffffffff, 0x00010000, 0x01000000}[c.Intn(7)]
+	}
+	var b0 []byte
+	r.Call(site+".IEncode", func() { b0, _ = pdu.IEncode() })
+	if p := r.Call(site+".SetSequenceID", func() { pdu.SetSequenceID(ns) }); p != nil {
+		r.Fail("C10", "panic", p.Frame, p.Kind, "SetSequenceID on a %s %s: %s", how, site, p.Value)
+		return
+	}
+	if pdu.GetSequenceID() != ns {
+		r.Fail("C10", "set-seq", site, "getter", "SetSequenceID(%d) on a %s PDU, then GetSequenceID()=%d", ns, how, pdu.GetSequenceID())
+	}
+	var b []byte
+	var err error
+	if p := r.Call(site+".IEncode", func() { b, err = pdu.IEncode() }); p != nil || err != nil {
+		return
+	}
+	_, cmd, hs, ok := headerBits(proto, b)
+	if !ok {
+		return
+	}
+	w := 0
+	if proto.Header == "sgip20" {
+		w = 2
+	}
+	if hs[w] != ns {
+		r.Fail("C10", "set-seq", site, "header-offset", "sequence number %d set on a %s PDU is not at the header's sequence offset (found %d)", ns, how, hs[w])
+	}
+	if _, cmd0, _, ok0 := headerBits(proto, b0); ok0 && cmd0 != cmd {
+		r.Fail("C10", "command", site, "after-set-seq", "command id changed from %#x to %#x after SetSequenceID", cmd0, cmd)
+	}
+	if got := pdu.GetCommand().ToUint32(); got != cmd {
+		r.Fail("C10", "command", site, how, "GetCommand()=%#x but the encoded header carries %#x", got, cmd)
+	}
 }
 
 // runDispatchIDs: every command id in 0..0x11f and 0x80000000..0x8000011f for
